@@ -44,3 +44,5 @@ verif_evnet_inv(void)
 	}
 	return (NULL);
 }
+/* i-th polled descriptor and its requested events (i < verif_evnet_nfds()) */
+void verif_evnet_polled(size_t i, int * fd, short * events){ *fd = fds[i].fd; *events = fds[i].events; }
